@@ -272,6 +272,13 @@ def replay(job, rec):
             "nontrivial": bool(feats), "features": sorted(set(feats))}
 
 
+def _rows_array(scn):
+    """the rows dimension of the scenario's slices is array-type (MR / CA / numeric-array items)"""
+    import envelope
+    ri, _ = envelope.slice_dim_indexes(scn["dims"])
+    return scn["dims"][ri]["kind"] in ("mr", "caitems", "numarr")
+
+
 def finish_job(job):
     """validate the recorded traces with TLC; -> list of (Mismatch, record) and counters"""
     st = _STATE.pop(job["scn"]["name"] + job["mode"], None)
@@ -289,6 +296,7 @@ def finish_job(job):
                              (prop, meta["partition"], tr["rx"], tr["rb"], tr["cx"], tr["cb"]),
                              {"event": ev, "partition": meta["partition"]},
                              tags={"prop": prop, "op": ev["op"],
+                                   "rows_array": _rows_array(job["scn"]),
                                    "xf_rows": min(len(tr["rx"]), 1),
                                    "xf_cols": min(len(tr["cx"]), 1)}), meta["rec"]))
     missing = [t["id"] for t in st["traces"] if t["id"] not in acc and t["id"] not in rej]
